@@ -1,5 +1,98 @@
 import Sentinel.Drv.Common
-/-! Driver for C11 (stub: replaced by the property's real driver) -/
+import Sentinel.Model.WarmUp
+/-!
+Driver for C11.
+
+* `model`  — the code-shaped model `Sentinel.WU` with the `Float` carrier (bit-exact with Go);
+* `exact`  — the same definitions with the `Rat` carrier (what the theorems are about); used by the
+             check to measure how often a rounding could flip a decision;
+* `oracle` — judges an implementation trace against the envelope claims of the property, using the
+             exact carrier for the calculator's fields and the known-finding classifiers.
+
+Ops: `clock <ms>` · `load wu <f:T> <periodSec> <coldFactor> <statIntervalMs>` ·
+`load ma <lowThr> <highThr> <lowMark> <highMark> <statIntervalMs>` · `mem <bytes|-1>` ·
+`req <n> <batch>` (n sequential `Entry`+`Exit` at this instant ⇒ number admitted) · `sum` (pass sum of the
+resource's default 1 s view).
+-/
 namespace Sentinel.Drv.C11
-def run (_mode : String) : IO Unit := IO.eprintln "C11: driver not implemented"
+open Sentinel.LA Sentinel.WU Sentinel.Drv
+
+/-- exact value of a finite float64 bit pattern -/
+def ratOfBits (n : Nat) : Option Rat :=
+  let neg : Bool := n / 2^63 % 2 = 1
+  let e : Nat := n / 2^52 % 2048
+  let m : Nat := n % 2^52
+  let mag : Option Rat :=
+    if e = 2047 then none
+    else if e = 0 then some ((m : Rat) / ((2^1074 : Nat) : Rat))
+    else
+      let sig : Nat := 2^52 + m
+      if 1075 ≤ e then some ((sig * 2^(e - 1075) : Nat) : Rat)
+      else some ((sig : Rat) / ((2^(1075 - e) : Nat) : Rat))
+  mag.map fun q => if neg then -q else q
+
+def parseRat? (s : String) : Option Rat :=
+  if s.startsWith "f:" then (parseHex? (s.drop 2).toString).bind ratOfBits else none
+
+/-- the machine's total memory is not modelled: generated water marks stay far below it -/
+def totalMem : Int := 2^62
+
+/-- `generateStatFor`: the read view of a rule with `StatIntervalInMs = iv` over the default node geometry;
+    `none` = a standalone statistic would be created (not modelled: never generated) or the parameters are illegal -/
+def viewOf (iv : Nat) : Option (Nat × Nat) :=
+  if iv = 0 ∨ iv = 1000 then some (2, 1000)
+  else
+    let sc := if iv > nodeN * nodeL then 1 else if iv < nodeL then 1 else if iv % nodeL = 0 then iv / nodeL else 1
+    if validView sc iv nodeN (nodeN * nodeL) = 0 then some (sc, iv) else none
+
+structure St (α : Type) where
+  sys : Sys α := {}
+  now : Nat := 0
+  loaded : Bool := false
+
+def step {α} [Carrier α] (parseT : String → Option α) (neg : α → Bool)
+    (s : St α) (ts : List String) (_ : String) : St α × Option String :=
+  match ts with
+  | ["clock", t] => match t.toNat? with
+      | some t => if s.now ≤ t then ({ s with now := t }, none) else (s, some "bad-op")
+      | none => (s, some "bad-op")
+  | ["load", "wu", T, p, cf, iv] => match parseT T, p.toNat?, cf.toNat?, iv.toNat? with
+      | some T, some p, some cf, some iv =>
+        if s.loaded then (s, some "bad-op") else
+        match viewOf iv with
+        | none => (s, some "bad-op")
+        | some (sc, Iv) =>
+          -- `IsValidRule`: negative threshold, zero period, cold factor 1 are rejected (the rule is dropped)
+          if neg T || p = 0 || cf = 1 then ({ s with loaded := true }, some "ok 0")
+          else ({ s with sys := loadWarmUp s.sys s.now T p cf sc Iv, loaded := true }, some "ok 1")
+      | _, _, _, _ => (s, some "bad-op")
+  | ["load", "ma", lt, ht, lm, hm, iv] => match lt.toInt?, ht.toInt?, lm.toInt?, hm.toInt?, iv.toNat? with
+      | some lt, some ht, some lm, some hm, some iv =>
+        if s.loaded then (s, some "bad-op") else
+        match viewOf iv with
+        | none => (s, some "bad-op")
+        | some (sc, Iv) =>
+          let m : MemCfg := { lowT := lt, highT := ht, lowM := lm, highM := hm }
+          if !m.valid totalMem then ({ s with loaded := true }, some "ok 0")
+          else ({ s with sys := loadAdaptive s.sys s.now m sc Iv, loaded := true }, some "ok 1")
+      | _, _, _, _, _ => (s, some "bad-op")
+  | ["mem", x] => match x.toInt? with
+      | some x => ({ s with sys := { s.sys with mem := x } }, none)
+      | none => (s, some "bad-op")
+  | ["req", n, b] => match n.toNat?, b.toNat? with
+      | some n, some b =>
+        let (sys', k) := reqs s.sys s.now b n
+        ({ s with sys := sys' }, some (toString k))
+      | _, _ => (s, some "bad-op")
+  | ["sum"] => match s.sys.arr with
+      | none => (s, some "-")
+      | some a => (s, some (toString (vSum a 1000 s.now .pass)))
+  | _ => (s, some "bad-op")
+
+def run (mode : String) : IO Unit :=
+  if mode == "exact" then
+    loop ({} : St Rat) (step parseRat? (fun q => decide (q < 0)))
+  else
+    loop ({} : St Float) (step parseFbits? (fun x => decide (x < 0)))
+
 end Sentinel.Drv.C11
